@@ -98,7 +98,18 @@ func (b *builder) fill(c *ctor, sv reflect.Value, depth int) {
 		opt = "none"
 	}
 	present := map[int]bool{} // field list index -> present
+	// solo profile "s<g>.<k>" (top level only): of the fields sharing flag bit group g only the k-th gets a non-zero
+	// value, the others keep their zero value, and the flag bit is NOT set here - it is left to the generated
+	// SetFlags (called by Encode), which has to derive it from any one of the fields
+	var sg, sk = -1, -1
+	if depth == 0 && strings.HasPrefix(opt, "s") {
+		fmt.Sscanf(opt, "s%d.%d", &sg, &sk)
+	}
 	for gi, g := range ti.groups {
+		if gi == sg && sk >= 0 && sk < len(g.fields) {
+			present[g.fields[sk]] = true
+			continue
+		}
 		on := opt == "all" || opt == fmt.Sprintf("g%d", gi)
 		if depth > 0 && strings.HasPrefix(opt, "g") {
 			on = false // single-group profiles apply to the top level only
